@@ -1763,7 +1763,9 @@ def _verify_feature_config(feature_config):
             for x in feature_config.pwl_calibration_input_keypoints)):
       raise ValueError('Input keypoints are invalid for feature {}: {}'.format(
           feature_config.name, feature_config.pwl_calibration_input_keypoints))
-  elif feature_config.monotonicity and feature_config.monotonicity != 'none':
+  elif feature_config.monotonicity and not (
+      isinstance(feature_config.monotonicity, six.string_types) and
+      feature_config.monotonicity.lower() == 'none'):
     # Validate Categorical Calibration configuration.
     if not np.iterable(feature_config.monotonicity):
       raise ValueError('Monotonicity is not a list for feature {}: {}'.format(
